@@ -84,6 +84,36 @@ def _work(units):
     acc = progcheck.Acc()
     res = {}
     for u in units:
+        if u[0] == "url-ramp":
+            # ONE evaluator whose configuration is edited step by step (labels look like URLs, weights on the same line):
+            # raising the first share must never move a unit to a later group, and every step must be consistent with one position
+            labels = ["http://cdn.example/a", "http://cdn.example/b"]
+            ev = None
+            prev = None
+            for t in (3, 1, 2, 4, 9, 10):
+                text = f'def e {{ splitters: uid return "{labels[0]}" weighted {t}, "{labels[1]}" weighted {10 - t} }}'
+                try:
+                    if ev is None:
+                        ev = impl.ExperimentEvaluator(text)
+                    else:
+                        with quiet():
+                            ev.recompile(text)
+                except Exception as e:  # noqa
+                    acc.violation({"kind": "pos:build", "sub": "build", "text": text, "observed": f"{type(e).__name__}: {e}"})
+                    break
+                acc.add("programs")
+                ws = [Fraction(t), Fraction(10 - t)]
+                for uid in range(200):
+                    acc.add("evaluations")
+                    r = impl.call(ev, {"uid": uid})
+                    k = Fraction(sem.hash_k(str(uid)), 1 << 32)
+                    g = labels.index(r[1]) if r[0] == "ok" and r[1] in labels else None
+                    lo, hi = interval(ws, g) if g is not None and ws[g] > 0 else (Fraction(2), Fraction(-1))
+                    if not (lo <= k <= hi):
+                        acc.violation({"kind": "pos:edited", "sub": "eval", "text": text, "id": enc(uid), "observed": short(repr(r)),
+                                       "why": f"after editing the weights to {t}:{10 - t} on the same evaluator, unit {uid} is not where its hash position {float(k):.6f} puts it"})  # fmt: skip
+                        break
+            continue
         if u[0] == "seam":
             # the position is GIVEN (first 32 digest bits substituted): every vector's group must contain it
             from .. import seam
@@ -132,6 +162,7 @@ def run(res, tier):
                                                                                        ["1000000.5", "1000000.25", "3.000001"]]
     seam_vs += [v for _k, v in _c03.crafted_vectors()]  # boundary a quarter grid point after a chosen position, exact in binary64
     units += [("seam", v) for v in seam_vs]
+    units.append(("url-ramp",))
     merged = {}
     for w in pmap(_work, permuted(units, "c10"), chunk=12):
         pos = w.pop("pos")
@@ -256,6 +287,9 @@ def replay(data):
         from . import c03
 
         return c03.replay(dict(data, kind=k[len("pos:seam-"):]))
+    if k == "pos:edited":
+        r = _work([("url-ramp",)])
+        return bool(r["viol"]), (r["viol"][0].get("why", "recompile raised") if r["viol"] else "every step follows the weights last given")
     if k in ("pos:inconsistent", "pos:not-published", "pos:ramp"):
         lo, hi = Fraction(-1), Fraction(2)
         gs = []
